@@ -356,6 +356,8 @@ def _(c):
     for m in spec:
         if m[0] == "I":
             _, d, dv = m
+            # (both ends closed, as the code has it: the state returned for the very date of an impulse includes it -- which is what "leaving it at rest where they say
+            # so" asks of the helper's last impulse -- at the price of a request split exactly there counting it twice: known finding, C16.compose_at_a_maneuver_date)
             if T >= d and d >= 0:
                 x = P(t, d, x, [0, 0, 0])
                 x = x[:3] + [x[3 + i] + dv[i] for i in range(3)]
@@ -623,3 +625,50 @@ def _(c):
     c.ensure("second_order_bound", errs[0] <= 12 * d * d / R * (1 + abs(n * dt)) ** 2)
     floor = 1e-4
     c.ensure("second_order_rate", errs[0] <= floor or 3.0 <= errs[0] / max(errs[1], 1e-12) <= 5.5)
+
+
+# ---------------------------------------------------------------------------------------------
+# composition where the request is split exactly AT a maneuver date (the two clauses of the property meet: "exactly once at its date" and "t1 then t2 equals t1+t2")
+# ---------------------------------------------------------------------------------------------
+
+def _grid_split_at(tier, rng):
+    """maneuver lists {one impulse, two impulses, burn then impulse, impulse then burn} x the request split exactly at {first maneuver's date, second maneuver's date / the
+    burn's start, the burn's stop, 1 s before the first, 1 s after the first} x orientation {QSW, TNW}"""
+    for pat in range(4):
+        for where in range(5):
+            for ori in (0, 1):
+                yield {"pattern": pat, "where": where, "ori": ori}
+
+
+@contract("C16", "compose_at_a_maneuver_date", funcs=[f"{CWC}.propagate"], grid=_grid_split_at, level="bounded")
+def _(c):
+    """bounded: propagating to a date that is exactly a maneuver's date (an impulse's date, a burn's start or stop) and then, from the returned state, to the end gives what
+    propagating to the end directly gives (each impulse counted once, each burn delivered once): 1e-9 relative"""
+    from beyond.orbits import Orbit
+    from beyond.dates import Date, timedelta
+    from beyond.propagators.cw import ClohessyWiltshire
+    from beyond.frames.frames import HillFrame
+    import beyond.frames.frames as fr
+    from beyond.orbits.man import ImpulsiveMan, ContinuousMan
+    saved = fr.dynamic.get("Hill")
+    frame = HillFrame(["QSW", "TNW"][c.integer("ori")])
+    fr.dynamic["Hill"] = saved
+    d0 = Date(2020, 1, 1)
+    p = ClohessyWiltshire(6.8e6, frame=frame)
+    o = Orbit([-600.0, -1500.0, 10.0, 0.1, 0.2, 0.0], d0, "cartesian", frame, p)
+    t1, t2 = d0 + timedelta(seconds=1000), d0 + timedelta(seconds=1700)
+    dur = timedelta(seconds=300)
+    o.maneuvers = [[ImpulsiveMan(t1, [0.0, 0.05, 0.0])],
+                   [ImpulsiveMan(t1, [0.0, 0.05, 0.0]), ImpulsiveMan(t2, [0.02, -0.03, 0.01])],
+                   [ContinuousMan(t1, dur, dv=[0.0, 0.3, 0.0]), ImpulsiveMan(t2, [0.02, -0.03, 0.01])],
+                   [ImpulsiveMan(t1, [0.0, 0.05, 0.0]), ContinuousMan(t2, dur, dv=[0.0, 0.3, 0.0])]][c.integer("pattern")]
+    pat = c.integer("pattern")
+    burn_start = {2: t1, 3: t2}.get(pat)
+    split = [t1, t2, (burn_start + dur) if burn_start is not None else t2, t1 - timedelta(seconds=1), t1 + timedelta(seconds=1)][c.integer("where")]
+    end = d0 + timedelta(seconds=2500)
+    direct = np.asarray(o.propagate(end), dtype=float)
+    mid = o.propagate(split)
+    chained = np.asarray(mid.propagate(end), dtype=float)
+    sc = max(1.0, float(np.abs(direct[:3]).max()))
+    c.ensure("split_equals_direct", bool(np.linalg.norm(chained[:3] - direct[:3]) <= 1e-9 * sc + 1e-6 and np.linalg.norm(chained[3:] - direct[3:]) <= 1e-9))
+    c.ensure("returned_state_dated_at_the_split", mid.date == split)
